@@ -450,7 +450,9 @@ impl<T: Tier> Cfg<T> for M3P2 {
             lin([[T::one(), T::zero()], [T::zero(), T::zero()]], [d[2][0], d[2][1]]),
         ];
         if float {
-            g.push(lin([[T::q(1, 1 << 30), T::zero()], [T::zero(), T::q(1, 1 << 30)]], [d[0][0], d[0][1]]));
+            // determinant far below machine epsilon, not zero; entries whose fourth powers are still normal numbers (8.5)
+            let tiny = if T::NAME == "F" { T::q(1, 1 << 12) } else { T::q(1, 1 << 30) };
+            g.push(lin([[tiny, T::zero()], [T::zero(), tiny]], [d[0][0], d[0][1]]));
         }
         g
     }
@@ -619,6 +621,16 @@ fn invariant<T: Tier, C: Cfg<T>>(ctx: &mut Ctx, s: &C::Tr, gens: &[C::Tr]) {
     };
     // Option-shaped clauses first: they do not depend on conditioning
     ctx.check(C::inv_tv(s, ps[0]).is_some(), &key(&format!("{}/inverse_vector/some-when-invertible", C::NAME)), || "inverse_transform_vector() is None for an invertible transform".to_string());
+    // outside the float domain (DESIGN 8.5): a product of four entries would underflow or overflow
+    if !T::EXACT {
+        let mags: Vec<f64> = model::mflat(hs).iter().map(|x| x.approx().abs()).filter(|x| *x > 0.0).collect();
+        let (mn, mx) = (mags.iter().cloned().fold(f64::INFINITY, f64::min), mags.iter().cloned().fold(0.0, f64::max));
+        let (lo, hi) = (T::min_positive_value().f() * 1e3, T::max_value().f() / 1e3);
+        if mn.powi(4) < lo || mx.powi(4) > hi || mn.powi(3) * mx < lo {
+            ctx.skip("outside the float domain: products of four entries are not normal numbers");
+            return;
+        }
+    }
     // ill-conditioned: the error bound of the reference inverse is no longer small against the inverse itself
     let worst = model::mflat(hi).iter().map(|x| T::tol(*x, slack)).fold(0.0, f64::max);
     let size = model::mflat(hi).iter().map(|x| x.approx().abs()).fold(0.0, f64::max);
